@@ -136,9 +136,14 @@ def run(ctx: Context) -> None:
     with ctx.section('R18.2'):
         pts = m.stmt('$points = [shapely.Point($piece.coords[0]), shapely.Point($piece.coords[-1])]')
         proj = m.stmt('$proj = (($pt, self.distance_along_line($pt)) for $pt in $points)') or m.stmt('$proj = [($pt, self.distance_along_line($pt)) for $pt in $points]')
+        srt = m.stmt('$start, $end = sorted($proj, key=lambda $pair: $pair[1])') if proj is not None else None
+        if proj is None:
+            # (a generator used once is written where it is used)
+            srt = m.stmt('$start, $end = sorted((($pt, self.distance_along_line($pt)) for $pt in $points), key=lambda $pair: $pair[1])') \
+                or m.stmt('$start, $end = sorted([($pt, self.distance_along_line($pt)) for $pt in $points], key=lambda $pair: $pair[1])')
+            proj = srt
         ctx.check('R18.2', pts is not None and proj is not None, "the end points are the first and last coordinate of the piece, each with its distance along the path", seg,
                   pts or seg.node, construct='points = [Point(piece.coords[0]), Point(piece.coords[-1])]; projections = ((p, distance_along_line(p)) for p in points)')
-        srt = m.stmt('$start, $end = sorted($proj, key=lambda $pair: $pair[1])')
         ctx.check('R18.2', srt is not None, "start and end are the two end points sorted ascending by distance", seg, srt or seg.node,
                   construct='start, end = sorted(projections, key=lambda pair: pair[1])')
         ok = all(k in kw for k in ('start_point', 'end_point', 'start_distance', 'end_distance')) and \
